@@ -93,7 +93,38 @@ def match_colours_in_acc_region(case, clause, detail, finding):
     return True
 
 
+def match_readinc_disc_iteration_space(case, clause, detail, finding):
+    '''`omp parallel do` stands directly on an uncoloured loop over all cells
+    whose kernel (no gh_inc argument, a gh_readinc on a shared space) iterates
+    over a DISCONTINUOUS space - its iteration-space argument (coarse field of
+    an inter-grid kernel, written operator) is not the incremented one.'''
+    if clause != "SharedIncNotColoured":
+        return False
+    wits = [w for w in detail["witnesses"] if w["v"] == clause]
+    if not wits:
+        return False
+    disc = ("w3", "wtheta", "w2v", "w2vtrace", "w2broken")
+    for w in wits:
+        if w["t"] != "cells" or not w["kerns"] or not w["encl"]:
+            return False
+        if w["encl"][-1] != "omp_parallel_do":     # directly on the loop
+            return False
+        for k in w["kerns"]:
+            args = case["kerns"][k - 1]["args"]
+            space = case["kernels"][k - 1].get("loop_space", "")
+            if not (space in disc
+                    or space.startswith("any_discontinuous_space_")):
+                return False
+            if any(a["acc"] == "gh_inc" for a in args):
+                return False
+            if not any(_shared(a) and a["acc"] == "gh_readinc" for a in args):
+                return False
+    return True
+
+
 MATCHERS = {"c23_readinc_not_coloured": match_readinc_not_coloured,
+            "c23_readinc_disc_iteration_space":
+                match_readinc_disc_iteration_space,
             "c23_colours_in_acc_region": match_colours_in_acc_region}
 
 
